@@ -111,7 +111,10 @@ theorem C02_union_container_first_witness (std : Std) :
 /-- **C02 (structure).** Below a main class with `class _(JSONWizard.Meta): v1 = True; v1_key_case = 'CAMEL'` (the default
 dump transform): for every type of the fragment int / float / str / bool / Decimal / Path / UUID / date / time / datetime /
 non-negative timedelta (canonical tokens, under the named `StdLaws`, incl. the `Z` spelling read back by `fromisoformat`) /
-Enum (pairwise different values) / Optional[·] / list[·] / deque[·] / tuple[·, ...] / dict[str, ·] / plain dataclass (no customisation of its own, pairwise distinct camelCase keys — `RTV1.PlainCls`), nested
+Enum (pairwise different values) / Literal[...] / bytes / bytearray (base64 law) / Optional[·] / list[·] / deque[·] /
+set[·] / frozenset[·] (hashable, pairwise different elements) / tuple[·, ...] / fixed tuples (also nested in one another:
+the generated `v1[k]` indexing, `RTV1.v1Tuple_ok`) / NamedTuple classes / dict[str, ·] / defaultdict[str, ·] /
+OrderedDict[str, ·] / plain dataclass (no customisation of its own, pairwise distinct camelCase keys — `RTV1.PlainCls`), nested
 to any depth, and every conforming value: whatever the dump produces, its JSON image loads back to exactly the value
 through the v1 loader. By induction over the conformance derivation; the dataclass case determines the shape of the
 dumped dict (`RTV1.dumpFields_shape`), shows that the generated field loop finds every field in it (`RTV1.v1Fields_ok`)
@@ -133,5 +136,28 @@ theorem C02_roundtrip_example :
     RTV1.PlainCls RTV1.exRoot RTV1.exRootTys ∧ RTV1.PlainCls RTV1.exInner RTV1.exInnerTys ∧
     RTV1.exRoot.cmeta = some RTV1.mV1 :=
   ⟨RTV1.exRoot_plain, RTV1.exInner_plain, rfl⟩
+
+/-- the kinds added to the fragment are inhabited: a `tuple[int, tuple[str, bool]]` (a fixed tuple nested in a fixed
+tuple: the shape repaired by f3aedfc), a `bytes`, a `frozenset[str]` and a `Literal[1, 'a']` value conform. -/
+theorem C02_roundtrip_example_containers (std : Std) :
+    RTV1.Conf std (.tuple [.int, .tuple [.str, .bool]]) (.tuple [.int 1, .tuple [.str "a".toList, .bool true]]) ∧
+    RTV1.Conf std .bytes (.bytes false [1, 2, 255]) ∧
+    RTV1.Conf std (.seq .frozenset .str) (.seq .frozenset [.str "a".toList, .str "b".toList]) ∧
+    RTV1.Conf std (.literal [.int 1, .str "a".toList]) (Lit.toPy (.str "a".toList)) := by
+  refine ⟨RTV1.Conf.tuple _ _ (by simp) rfl ?_, RTV1.Conf.bytes _, RTV1.Conf.frozenset _ _ (by rfl) (by rfl) ?_,
+    RTV1.Conf.literal _ (.str "a".toList) (by simp) (by rfl)⟩
+  · intro p hp
+    simp only [List.zip_cons_cons, List.zip_nil_right, List.mem_cons, List.not_mem_nil, or_false] at hp
+    rcases hp with rfl | rfl
+    · exact RTV1.Conf.int 1
+    · refine RTV1.Conf.tuple _ _ (by simp) rfl ?_
+      intro q hq
+      simp only [List.zip_cons_cons, List.zip_nil_right, List.mem_cons, List.not_mem_nil, or_false] at hq
+      rcases hq with rfl | rfl
+      · exact RTV1.Conf.str _
+      · exact RTV1.Conf.bool _
+  · intro x hx
+    simp only [List.mem_cons, List.not_mem_nil, or_false] at hx
+    rcases hx with rfl | rfl <;> exact RTV1.Conf.str _
 
 end DW.Props.C02
